@@ -285,12 +285,16 @@ func typedRegistrationOrder(repM, repU *Report) {
 		v := reflect.New(t.Elem()) // a value of type t
 		ts, err := marshalTokens(v.Interface(), nil)
 		repM.Evaluations++
-		if err != nil || len(ts) == 0 || ts[0].Kind != sb.KindTypeName || ts[0].Value != sb.TypeName(t) {
-			repM.violate("C08", "registered-not-prefixed", fmt.Sprintf("a value of a registered type is marshalled without its type name: (%v) %s", err, descTokens(ts)), desc)
+		want := refTypeName(t) // written from the naming rule, independent of the package's name cache
+		if got := sb.TypeName(t); got != want {
+			repM.violate("C08", "type-name-wrong", fmt.Sprintf("TypeName(%v) = %q, the naming rule gives %q", t, got, want), desc)
+		}
+		if err != nil || len(ts) == 0 || ts[0].Kind != sb.KindTypeName || ts[0].Value != want {
+			repM.violate("C08", "registered-not-prefixed", fmt.Sprintf("a value of a registered type is marshalled without its type name %q: (%v) %s", want, err, descTokens(ts)), desc)
 		}
 		var x any
 		e := guard(func() error {
-			return copyBudget(tokensFrom([]sb.Token{{Kind: sb.KindTypeName, Value: sb.TypeName(t)}, {Kind: sb.KindNil}}), sb.Unmarshal(&x))
+			return copyBudget(tokensFrom([]sb.Token{{Kind: sb.KindTypeName, Value: want}, {Kind: sb.KindNil}}), sb.Unmarshal(&x))
 		})
 		repU.Evaluations++
 		if e != nil || x == nil || reflect.TypeOf(x) != t {
@@ -313,6 +317,17 @@ func typedRegistrationOrder(repM, repU *Report) {
 	_, _ = marshalTokens(reflect.New(t3.Elem()).Interface(), nil)
 	sb.Register(t3)
 	check(t3, "Marshal(value of T) then Register(T)")
+	// 3b. the name of the POINTER type asked for first (a name cache must not file it under the element type)
+	t5 := ptrN(12)
+	_ = sb.TypeName(reflect.PtrTo(t5))
+	sb.Register(t5)
+	check(t5, "TypeName(*T) then Register(T)")
+	t6 := ptrN(15)
+	sb.Register(reflect.PtrTo(t6))
+	check(reflect.PtrTo(t6), "Register(*T) only: *T")
+	if got, want := sb.TypeName(t6), refTypeName(t6); got != want {
+		repM.violate("C08", "type-name-wrong", fmt.Sprintf("after Register(*T), TypeName(T) = %q, the naming rule gives %q", got, want), "registration history: Register(*T) then TypeName(T)")
+	}
 	// 4. registering twice
 	t4 := ptrN(10)
 	sb.Register(t4)
@@ -370,4 +385,22 @@ func typedEmbedded(repU *Report) {
 			repU.violate("C05", "field-not-matched-by-name", fmt.Sprintf("got %+v, want %+v", got, *c.want), desc)
 		}
 	}
+}
+
+// the naming rule of type_name.go, written independently: pointers prefix "*", defined types are
+// pkgpath.Name (Name alone without a package path), anything else has no name
+func refTypeName(t reflect.Type) string {
+	if t.Kind() == reflect.Ptr {
+		if e := refTypeName(t.Elem()); e != "" {
+			return "*" + e
+		}
+		return ""
+	}
+	if t.Name() != "" {
+		if t.PkgPath() != "" {
+			return t.PkgPath() + "." + t.Name()
+		}
+		return t.Name()
+	}
+	return ""
 }
